@@ -186,6 +186,92 @@ func ruleC18Sources(c *Ctx) {
 				"the declarations of the document's own include tree are only consulted depending on whether a workspace exists: a document outside the workspace root's tree loses the declarations of the files it includes")
 		}
 		c.census("C18-SOURCES", "reads of the document's include tree that feed the declarations", nReads, 1)
+		// ... file by file: nothing that is computed from the tree on its way into the declarations (a journal
+		// picked from tree.Files, a list of journals still to visit, a name taken from a directive) is control
+		// dependent on the workspace - "files the workspace knows are skipped" drops the declarations of a file that
+		// the workspace tracks for another root
+		nSteps := 0
+		fwd := map[ssa.Instruction]bool{}
+		var order []ssa.Instruction
+		var follow func(v ssa.Value, depth int)
+		mark := func(ins ssa.Instruction) bool {
+			if fwd[ins] {
+				return false
+			}
+			fwd[ins] = true
+			order = append(order, ins)
+			return true
+		}
+		follow = func(v ssa.Value, depth int) {
+			refs := v.Referrers()
+			if refs == nil {
+				return
+			}
+			for _, r := range *refs {
+				switch x := r.(type) {
+				case *ssa.Store:
+					if x.Val == v && mark(x) {
+						if al, ok := x.Addr.(*ssa.Alloc); ok {
+							follow(al, depth)
+						}
+					}
+				case *ssa.MapUpdate:
+					mark(x)
+				case *ssa.Call:
+					if !mark(x) {
+						continue
+					}
+					if bi, ok := x.Call.Value.(*ssa.Builtin); ok {
+						if bi.Name() == "append" {
+							follow(x, depth)
+						}
+						continue
+					}
+					if cal := x.Call.StaticCallee(); cal != nil && cal.Blocks != nil && inModule(cal) && depth < 2 {
+						for i, a := range x.Call.Args {
+							if a == v && i < len(cal.Params) {
+								follow(cal.Params[i], depth+1)
+							}
+						}
+					}
+				case ssa.Value:
+					switch r.(type) {
+					case *ssa.UnOp, *ssa.Range, *ssa.Next, *ssa.Extract, *ssa.Lookup, *ssa.Index, *ssa.IndexAddr, *ssa.FieldAddr, *ssa.Field,
+						*ssa.TypeAssert, *ssa.ChangeInterface, *ssa.MakeInterface, *ssa.Phi, *ssa.Slice, *ssa.Convert, *ssa.ChangeType:
+						if mark(r) {
+							follow(x, depth)
+						}
+					}
+				}
+			}
+		}
+		for _, v := range reads {
+			follow(v, 0)
+		}
+		for _, ins := range order {
+			if ins.Block() == nil {
+				continue
+			}
+			wsDep := false
+			for _, cc := range controlDeps(ins.Block()) {
+				if isWorkspaceCond(cc.Cond) {
+					wsDep = true
+				}
+			}
+			if !wsDep {
+				continue
+			}
+			nSteps++
+			if nSteps > 3 {
+				continue
+			}
+			c.check(false, "C18-SOURCES", funcName(ins.Parent()), fmt.Sprintf("every file of the include tree contributes its declarations, workspace or not #%d", nSteps), ins.Pos(),
+				"", "a value computed from the document's include tree is used only under a condition on the workspace: a file the workspace knows for another reason (a second root in the same folder) is skipped and its declarations are lost")
+		}
+		if nSteps == 0 {
+			c.check(true, "C18-SOURCES", hname, "every file of the include tree contributes its declarations, workspace or not", extCall.Pos(),
+				"no step from the include tree to the declarations is conditioned on the workspace", "")
+		}
 	}
 	// the getters are fetched independently of the diagnostics settings (wherever the lookups live: in the
 	// analysis function or in a helper whose result flows into the declarations)
